@@ -100,18 +100,26 @@ Definition link (c : @abf_cfg R) (s : @abf_state R) (p : @abf_in R * @abf_out R)
   (forall k, (k < c_nd c)%nat -> vget Rops (s_fprev s) k = vget Rops (o_fapp (snd p)) k) /\
   (forall k, (k < c_nd c)%nat -> bget (c_subtract c) k = true -> vget Rops (s_fold s) k = vget Rops (o_f (snd p)) k) /\
   (forall k, (k < c_nd c)%nat -> vget Rops (s_fj s) k = vget Rops (i_j (fst p)) k) /\
+  (forall k, (k < c_nd c)%nat -> bget (s_japp s) k = c_hidej c && cvapply c (fst p) k) /\
   (* a variable to which no bias applies a force: the ABF force is 0, and so is colvar::f *)
   (forall k, (k < c_nd c)%nat -> cvapply c (fst p) k = false ->
      vget Rops (o_fapp (snd p)) k = 0 /\ vget Rops (o_f (snd p)) k = 0).
 
+Lemma bget_map_seq (f : nat -> bool) (n k : nat) : (k < n)%nat -> bget (map f (seq 0 n)) k = f k.
+Proof.
+  intros Hk. unfold bget. rewrite nth_indep with (d' := f 0%nat) by (rewrite map_length, seq_length; exact Hk).
+  rewrite map_nth. rewrite seq_nth by exact Hk. reflexivity.
+Qed.
+
 Lemma link_step c s i : link c (fst (abf_step Rops c s i)) (i, snd (abf_step Rops c s i)).
 Proof.
-  unfold abf_step, link. cbn [fst snd s_started s_fbin s_eng s_fprev s_fold s_fj o_f o_fapp].
-  split; [reflexivity|]. split; [reflexivity|]. split; [|split; [|split; [|split]]].
+  unfold abf_step, link. cbn [fst snd s_started s_fbin s_eng s_fprev s_fold s_fj s_japp o_f o_fapp].
+  split; [reflexivity|]. split; [reflexivity|]. split; [|split; [|split; [|split; [|split]]]].
   - intros k Hk. unfold st_eng. rewrite vget_vbuild by exact Hk. cbn [fst]. destruct (cvapply c i k); reflexivity.
   - intros k Hk. reflexivity.
   - intros k Hk Hs. unfold st_fold. rewrite vget_vbuild by exact Hk. rewrite Hs. reflexivity.
   - intros k Hk. unfold st_fj. rewrite vget_vbuild by exact Hk. reflexivity.
+  - intros k Hk. unfold st_japp. rewrite bget_map_seq by exact Hk. reflexivity.
   - intros k Hk Hcv. cbn [fst] in Hcv. pose proof Hcv as Hcv'.
     unfold cvapply in Hcv. apply orb_false_iff in Hcv. destruct Hcv as [Ha Ho].
     assert (Hf : vget Rops (st_fapp Rops c s i) k = 0).
@@ -123,45 +131,23 @@ Qed.
 
 (* ---------------------------------------------------------------- one step, lagged convention *)
 
-(* side condition of the partial theorem: with hideJacobian in the lagged convention applyBias is not
-   switched at run time: colvar::collect_cvc_total_forces decides whether the compensating force -fj is
-   contained in the force of the PREVIOUS step by looking at f_cv_apply_force NOW *)
-Definition steady (c : @abf_cfg R) (a : bool) (h : list (@abf_in R)) : Prop :=
-  c_hidej c = true -> c_same_step c = false -> Forall (fun i => i_apply i = a) h.
-
 Lemma sysf_lag c s i p k :
-  (c_hidej c = true -> i_apply i = i_apply (fst p)) ->
   c_same_step c = false -> c_update c = true -> (0 <? fst (st_clk s i))%Z = true ->
   link c s p -> (k < c_nd c)%nat ->
   vget Rops (st_sysf Rops c s i) k = vget Rops (sample_force Rops c p) k.
 Proof.
-  intros Hjok Hsame Hupd Hrel (Hst & Hfb & Heng & Hfapp & Hfold & Hfj & Hnoapp) Hk.
+  intros Hsame Hupd Hrel (Hst & Hfb & Heng & Hfapp & Hfold & Hfj & Hjapp & Hnoapp) Hk.
   unfold st_sysf. rewrite vget_vbuild by exact Hk.
   unfold st_ft. rewrite Hsame. rewrite vget_vbuild by exact Hk.
   unfold st_ft0. rewrite vget_vbuild by exact Hk.
   rewrite Hupd, Hsame, Hrel. cbn [orb]. rewrite (Heng k Hk), (Hfj k Hk).
   unfold sample_force. rewrite vget_vbuild by exact Hk.
-  unfold measured, own, jac, addj. rewrite Hsame.
-  assert (Hcvi : c_hidej c = true -> cvapply c i k = cvapply c (fst p) k).
-  { intros Hh. unfold cvapply. rewrite (Hjok Hh). reflexivity. }
-  destruct (c_hidej c) eqn:Hh.
-  - rewrite (Hcvi eq_refl).
-    destruct (cvapply c (fst p) k) eqn:Hcv.
-    + destruct (bget (c_subtract c) k) eqn:Hs;
-        cbn [andb orb negb nsub nadd n0 Rops];
-        try rewrite (Hfold k Hk Hs); try rewrite (Hfapp k Hk); lra.
-    + destruct (Hnoapp k Hk Hcv) as [Hf0 Hof].
-      destruct (bget (c_subtract c) k) eqn:Hs;
-        cbn [andb orb negb nsub nadd n0 Rops];
-        try rewrite (Hfold k Hk Hs); try rewrite (Hfapp k Hk); lra.
-  - destruct (cvapply c (fst p) k) eqn:Hcv.
-    + destruct (bget (c_subtract c) k) eqn:Hs;
-        cbn [andb orb negb nsub nadd n0 Rops];
-        try rewrite (Hfold k Hk Hs); try rewrite (Hfapp k Hk); lra.
-    + destruct (Hnoapp k Hk Hcv) as [Hf0 Hof].
-      destruct (bget (c_subtract c) k) eqn:Hs;
-        cbn [andb orb negb nsub nadd n0 Rops];
-        try rewrite (Hfold k Hk Hs); try rewrite (Hfapp k Hk); lra.
+  unfold measured, own, jac, addj. rewrite Hsame. rewrite (Hjapp k Hk).
+  destruct (c_hidej c) eqn:Hh; destruct (cvapply c (fst p) k) eqn:Hcv;
+    try (destruct (Hnoapp k Hk Hcv) as [Hf0 Hof]);
+    destruct (bget (c_subtract c) k) eqn:Hs;
+    cbn [andb orb negb nsub nadd n0 Rops];
+    try rewrite (Hfold k Hk Hs); try rewrite (Hfapp k Hk); lra.
 Qed.
 
 Lemma doacc_lag c s i p :
@@ -175,14 +161,14 @@ Proof.
 Qed.
 
 Lemma step_lag c s i p b :
-  (c_hidej c = true -> i_apply i = i_apply (fst p)) -> c_same_step c = false -> c_szd c = false -> link c s p ->
+  c_same_step c = false -> c_szd c = false -> link c s p ->
   let s1 := fst (abf_step Rops c s i) in
   let o := snd (abf_step Rops c s i) in
   let A := attributed_of c [(bins Rops c (i_x (fst p)), sample_force Rops c p, (o_rel o, o_cont o))] in
   s_cnt s1 b = (s_cnt s b + cnt_of b A)%Z /\
   forall k, (k < c_nd c)%nat -> vget Rops (s_sum s1 b) k = vget Rops (s_sum s b) k - fsum_of k b A.
 Proof.
-  intros Hjok Hsame Hszd Hl. cbn zeta.
+  intros Hsame Hszd Hl. cbn zeta.
   unfold abf_step. cbn [fst snd s_cnt s_sum o_rel o_cont].
   rewrite attributed_of_one. rewrite <- surjective_pairing.
   unfold st_cnt, st_sum. rewrite (doacc_lag c s i p Hsame Hszd Hl).
@@ -197,33 +183,27 @@ Proof.
         apply andb_true_iff in E. destruct E as [E1 _]. unfold eligible in E1.
         apply andb_true_iff in E1. destruct E1 as [Hupd E2]. rewrite Hszd in E2.
         rewrite orb_false_r in E2. apply andb_true_iff in E2. destruct E2 as [Hrel _].
-        rewrite (sysf_lag c s i p k Hjok Hsame Hupd Hrel Hl Hk). reflexivity.
+        rewrite (sysf_lag c s i p k Hsame Hupd Hrel Hl Hk). reflexivity.
       * lra.
   - split; [unfold cnt_of; cbn; lia | intros k Hk; unfold fsum_of; cbn; lra].
 Qed.
 
 Lemma run_lag c : c_same_step c = false -> c_szd c = false ->
   forall h s p, link c s p ->
-    (c_hidej c = true -> Forall (fun i => i_apply i = i_apply (fst p)) h) ->
     forall b,
       let r := abf_run_from Rops c s h in
       let A := attributed_of c (deliveries_lag Rops c (Some p) (combine h (snd r))) in
       s_cnt (fst r) b = (s_cnt s b + cnt_of b A)%Z /\
       forall k, (k < c_nd c)%nat -> vget Rops (s_sum (fst r) b) k = vget Rops (s_sum s b) k - fsum_of k b A.
 Proof.
-  intros Hsame Hszd h. induction h as [|i h IH]; intros s p Hl Hst b; cbn zeta.
+  intros Hsame Hszd h. induction h as [|i h IH]; intros s p Hl b; cbn zeta.
   - cbn [abf_run_from fst snd combine deliveries_lag]. unfold attributed_of, cnt_of, fsum_of. cbn.
     split; [lia | intros k Hk; lra].
   - cbn [abf_run_from fst snd combine deliveries_lag] in *.
     pose proof (link_step c s i) as Hl1.
-    assert (Hhead : c_hidej c = true -> i_apply i = i_apply (fst p)).
-    { intros Hh. specialize (Hst Hh). inversion Hst as [|x l Hx Hr]; subst. exact Hx. }
-    assert (Htail : c_hidej c = true -> Forall (fun i' => i_apply i' = i_apply (fst (i, snd (abf_step Rops c s i)))) h).
-    { intros Hh. specialize (Hst Hh). inversion Hst as [|x l Hx Hr]; subst. cbn [fst].
-      rewrite Hx. exact Hr. }
-    specialize (IH (fst (abf_step Rops c s i)) (i, snd (abf_step Rops c s i)) Hl1 Htail b).
+    specialize (IH (fst (abf_step Rops c s i)) (i, snd (abf_step Rops c s i)) Hl1 b).
     cbn zeta in IH. destruct IH as [IHc IHs].
-    pose proof (step_lag c s i p b Hhead Hsame Hszd Hl) as Hstep. cbn zeta in Hstep.
+    pose proof (step_lag c s i p b Hsame Hszd Hl) as Hstep. cbn zeta in Hstep.
     destruct Hstep as [Sc Ss].
     rewrite attributed_of_app, cnt_of_app. split.
     + rewrite IHc, Sc. lia.
@@ -298,29 +278,30 @@ Definition wf_cfg (c : @abf_cfg R) : Prop := c_szd c = true -> c_same_step c = t
 Local Notation trace_of := (trace_of Rops).
 Local Notation trace_from := (trace_from Rops).
 
-(* a state in which no step was made yet: the freshly initialised bias, with or without data read
-   through inputPrefix *)
-Definition fresh (s : @abf_state R) : Prop := s_started s = false /\ s_rel s = 0%Z.
+(* a state in which the bias has not been updated yet: the freshly initialised bias, with or without data read
+   through inputPrefix or a state file, at the start of the run (no step made) or defined while the simulation is
+   running (force_bin still outside of the grid) *)
+Definition fresh (c : @abf_cfg R) (s : @abf_state R) : Prop :=
+  (s_started s = false /\ s_rel s = 0%Z) \/ index_ok c (s_fbin s) = false.
 
 Lemma first_step_lag c s i :
-  fresh s -> c_szd c = false -> c_same_step c = false -> st_doacc Rops c s i = false.
+  fresh c s -> c_szd c = false -> c_same_step c = false -> st_doacc Rops c s i = false.
 Proof.
-  intros [Hst Hrel] Hszd Hsame. unfold st_doacc, st_clk, clock. rewrite Hst, Hrel.
-  cbn [fst snd]. rewrite Hszd. cbn. reflexivity.
+  intros [[Hst Hrel]|Hfb] Hszd Hsame.
+  - unfold st_doacc, st_clk, clock. rewrite Hst, Hrel. cbn [fst snd]. rewrite Hszd. cbn. reflexivity.
+  - unfold st_doacc, st_fbin. rewrite Hsame, Hfb. apply andb_false_r.
 Qed.
 
-Lemma steady_forall c a h : steady c a h -> c_same_step c = false -> c_hidej c = true -> Forall (fun i => i_apply i = a) h.
-Proof. intros H Hs Hh. exact (H Hh Hs). Qed.
 
 (* from ANY fresh state s0: what the history adds to the grids of s0 *)
-Theorem run_from_fresh (c : @abf_cfg R) (s0 : @abf_state R) (h : list (@abf_in R)) (b : idx) (a : bool) :
-  wf_cfg c -> steady c a h -> fresh s0 ->
+Theorem run_from_fresh (c : @abf_cfg R) (s0 : @abf_state R) (h : list (@abf_in R)) (b : idx) :
+  wf_cfg c -> fresh c s0 ->
   let r := abf_run_from Rops c s0 h in
   let S := attributed Rops c (trace_from c s0 h) in
   s_cnt (fst r) b = (s_cnt s0 b + cnt_of b S)%Z /\
   forall k, (k < c_nd c)%nat -> vget Rops (s_sum (fst r) b) k = vget Rops (s_sum s0 b) k - fsum_of k b S.
 Proof.
-  intros Hwf Hsteady Hfresh. cbn zeta. unfold attributed, deliveries, ABFModel.trace_from.
+  intros Hwf Hfresh. cbn zeta. unfold attributed, deliveries, ABFModel.trace_from.
   destruct (c_same_step c) eqn:Hsame.
   - pose proof (run_same c Hsame h s0 b) as H. cbn zeta in H. exact H.
   - assert (Hszd : c_szd c = false).
@@ -331,10 +312,7 @@ Proof.
       split; [lia | intros k Hk; lra].
     + cbn [abf_run_from fst snd combine deliveries_lag app] in *.
       pose proof (link_step c s0 i0) as Hl.
-      assert (Hst : c_hidej c = true -> Forall (fun i' => i_apply i' = i_apply (fst (i0, snd (abf_step Rops c s0 i0)))) h).
-      { intros Hh. pose proof (steady_forall c a _ Hsteady Hsame Hh) as HF.
-        inversion HF as [|x l Hx Hr]. cbn [fst]. rewrite Hx. exact Hr. }
-      pose proof (run_lag c Hsame Hszd h _ _ Hl Hst b) as H. cbn zeta in H. destruct H as [Hc Hs].
+      pose proof (run_lag c Hsame Hszd h _ _ Hl b) as H. cbn zeta in H. destruct H as [Hc Hs].
       assert (Hc0 : s_cnt (fst (abf_step Rops c s0 i0)) b = s_cnt s0 b).
       { unfold abf_step. cbn [fst s_cnt]. unfold st_cnt. rewrite first_step_lag by assumption. reflexivity. }
       assert (Hs0 : s_sum (fst (abf_step Rops c s0 i0)) b = s_sum s0 b).
@@ -344,13 +322,13 @@ Proof.
       * intros k Hk. rewrite (Hs k Hk), Hs0. reflexivity.
 Qed.
 
-Lemma fresh_init c : fresh (abf_init Rops c).
-Proof. split; reflexivity. Qed.
-Lemma fresh_add_data c s d : fresh s -> fresh (abf_add_data Rops c s d).
-Proof. intros [H1 H2]. split; assumption. Qed.
-Lemma fresh_fold c l : forall s, fresh s -> fresh (fold_left (abf_add_data Rops c) l s).
+Lemma fresh_init c : fresh c (abf_init Rops c).
+Proof. left. split; reflexivity. Qed.
+Lemma fresh_add_data c s d : fresh c s -> fresh c (abf_add_data Rops c s d).
+Proof. intros H. exact H. Qed.
+Lemma fresh_fold c l : forall s, fresh c s -> fresh c (fold_left (abf_add_data Rops c) l s).
 Proof. induction l as [|d l IH]; intros s H; cbn [fold_left]; [exact H | apply IH, fresh_add_data, H]. Qed.
-Lemma fresh_init_data c l : fresh (abf_init_data Rops c l).
+Lemma fresh_init_data c l : fresh c (abf_init_data Rops c l).
 Proof. unfold abf_init_data. apply fresh_fold, fresh_init. Qed.
 
 (* what the data sets contain: the summed counts, and the summed gradient * count *)
@@ -372,14 +350,14 @@ Proof.
       cbn [nadd nmul nofZ Rops]. lra.
 Qed.
 
-Theorem abf_state_is_sample_sum (c : @abf_cfg R) (h : list (@abf_in R)) (b : idx) (a : bool) :
-  wf_cfg c -> steady c a h ->
+Theorem abf_state_is_sample_sum (c : @abf_cfg R) (h : list (@abf_in R)) (b : idx) :
+  wf_cfg c ->
   s_cnt (fst (abf_run Rops c h)) b = cnt_of b (attributed Rops c (trace_of c h)) /\
   forall k, (k < c_nd c)%nat ->
     vget Rops (s_sum (fst (abf_run Rops c h)) b) k = - fsum_of k b (attributed Rops c (trace_of c h)).
 Proof.
-  intros Hwf Hst.
-  pose proof (run_from_fresh c (abf_init Rops c) h b a Hwf Hst (fresh_init c)) as H. cbn zeta in H.
+  intros Hwf.
+  pose proof (run_from_fresh c (abf_init Rops c) h b Hwf (fresh_init c)) as H. cbn zeta in H.
   destruct H as [Hc Hs]. unfold abf_run, ABFModel.trace_of. split.
   - rewrite Hc. unfold abf_init. cbn [s_cnt]. lia.
   - intros k Hk. rewrite (Hs k Hk). unfold abf_init. cbn [s_sum]. rewrite vget_vzero. lra.
@@ -388,8 +366,8 @@ Qed.
 (* inputPrefix: the grids after a history started from data read from files are that data plus the samples
    of the history: count = counts read + number, sum = sum of gradient read * count read - sum of the forces *)
 Theorem abf_state_with_input_data (c : @abf_cfg R) (l : list (@dataset R))
-        (h : list (@abf_in R)) (b : idx) (a : bool) :
-  wf_cfg c -> steady c a h ->
+        (h : list (@abf_in R)) (b : idx) :
+  wf_cfg c ->
   let s0 := abf_init_data Rops c l in
   let r := abf_run_data Rops c l h in
   let S := attributed Rops c (trace_from c s0 h) in
@@ -397,8 +375,8 @@ Theorem abf_state_with_input_data (c : @abf_cfg R) (l : list (@dataset R))
   forall k, (k < c_nd c)%nat ->
     vget Rops (s_sum (fst r) b) k = data_sum l b k - fsum_of k b S.
 Proof.
-  intros Hwf Hst. cbn zeta.
-  pose proof (run_from_fresh c (abf_init_data Rops c l) h b a Hwf Hst (fresh_init_data c l)) as H.
+  intros Hwf. cbn zeta.
+  pose proof (run_from_fresh c (abf_init_data Rops c l) h b Hwf (fresh_init_data c l)) as H.
   cbn zeta in H. destruct H as [Hc Hs]. unfold abf_run_data.
   destruct (fold_data_grids c l (abf_init Rops c) b) as [Dc Ds]. fold (abf_init_data Rops c l) in Dc, Ds. split.
   - rewrite Hc, Dc. unfold abf_init. cbn [s_cnt]. lia.
@@ -431,16 +409,16 @@ Proof.
   apply IH. unfold abf_step. cbn [fst s_sum]. apply sum_length_step. exact H.
 Qed.
 
-Theorem abf_sum_vector (c : @abf_cfg R) (h : list (@abf_in R)) (b : idx) (a : bool) :
-  wf_cfg c -> steady c a h ->
+Theorem abf_sum_vector (c : @abf_cfg R) (h : list (@abf_in R)) (b : idx) :
+  wf_cfg c ->
   s_sum (fst (abf_run Rops c h)) b
   = vbuild (c_nd c) (fun k => - fsum_of k b (attributed Rops c (ABFModel.trace_of Rops c h))).
 Proof.
-  intros Hwf Hjok. apply vec_ext with (n := c_nd c).
+  intros Hwf. apply vec_ext with (n := c_nd c).
   - unfold abf_run. apply sum_length_run. intros b'. unfold abf_init. cbn [s_sum]. apply vbuild_length.
   - apply vbuild_length.
   - intros k Hk. rewrite vget_vbuild by exact Hk.
-    destruct (abf_state_is_sample_sum c h b a Hwf Hjok) as [_ Hs]. apply Hs. exact Hk.
+    destruct (abf_state_is_sample_sum c h b Hwf) as [_ Hs]. apply Hs. exact Hk.
 Qed.
 
 (* ---------------------------------------------------------------- the stored gradient is minus the mean *)
@@ -453,16 +431,16 @@ Lemma cnt_of_nonneg b (S : list (idx * @vec R)) : (0 <= cnt_of b S)%Z.
 Proof. unfold cnt_of. lia. Qed.
 
 (* [grad_out] is colvar_grid_gradient::value_output, what the state file and the .grad file contain *)
-Theorem stored_gradient_is_minus_mean (c : @abf_cfg R) (h : list (@abf_in R)) (b : idx) (k : nat) (a : bool) :
-  wf_cfg c -> steady c a h -> (k < c_nd c)%nat ->
+Theorem stored_gradient_is_minus_mean (c : @abf_cfg R) (h : list (@abf_in R)) (b : idx) (k : nat) :
+  wf_cfg c -> (k < c_nd c)%nat ->
   let s := fst (abf_run Rops c h) in
   let S := attributed Rops c (ABFModel.trace_of Rops c h) in
   s_cnt s b = cnt_of b S /\
   ((0 < cnt_of b S)%Z -> grad_out Rops (s_cnt s) (s_sum s) b k = - mean_force S b k) /\
   (cnt_of b S = 0%Z -> grad_out Rops (s_cnt s) (s_sum s) b k = 0).
 Proof.
-  intros Hwf Hjok Hk. cbn zeta.
-  destruct (abf_state_is_sample_sum c h b a Hwf Hjok) as [Hc Hs].
+  intros Hwf Hk. cbn zeta.
+  destruct (abf_state_is_sample_sum c h b Hwf) as [Hc Hs].
   split; [exact Hc|]. unfold grad_out, mean_force. cbn [n0 n1 ndiv nmul nofZ Rops].
   rewrite Hc, (Hs k Hk). split.
   - intros Hpos. destruct (0 <? cnt_of b (attributed Rops c (ABFModel.trace_of Rops c h)))%Z eqn:E;
@@ -696,18 +674,18 @@ Qed.
 
 (* After ANY history h followed by a step i: the ABF force of that step, in terms of the attributed
    samples of the whole history h ++ [i] *)
-Theorem applied_force_is_smoothed_negative_mean c h i k a0 :
-  wf_cfg c -> steady c a0 (h ++ [i]) -> (k < c_nd c)%nat -> (0 <= c_min c < c_full c)%Z ->
+Theorem applied_force_is_smoothed_negative_mean c h i k :
+  wf_cfg c -> (k < c_nd c)%nat -> (0 <= c_min c < c_full c)%Z ->
   (c_cap c = true -> 0 <= vget Rops (c_maxf c) k) ->
   vget Rops (o_fabf (snd (abf_step Rops c (fst (abf_run Rops c h)) i))) k
   = spec_force_samples c (i_apply i) (attributed Rops c (ABFModel.trace_of Rops c (h ++ [i]))) (bins Rops c (i_x i)) k.
 Proof.
-  intros Hwf Hjok Hk Hmf Hcap.
+  intros Hwf Hk Hmf Hcap.
   pose proof (applied_force_after_history c h i k Hk Hmf Hcap) as H. cbn zeta in H. rewrite H.
   rewrite <- run_snoc.
   apply spec_force_of_samples; [exact Hk | |].
-  - intros b'. apply (abf_state_is_sample_sum c (h ++ [i]) b' a0 Hwf Hjok).
-  - intros b' k' Hk'. apply (abf_state_is_sample_sum c (h ++ [i]) b' a0 Hwf Hjok). exact Hk'.
+  - intros b'. apply (abf_state_is_sample_sum c (h ++ [i]) b' Hwf).
+  - intros b' k' Hk'. apply (abf_state_is_sample_sum c (h ++ [i]) b' Hwf). exact Hk'.
 Qed.
 
 (* the force the bias hands to the variable is that force times the factor of the scaling grid at the
@@ -821,79 +799,15 @@ Proof.
 Qed.
 
 (* ---------------------------------------------------------------- non-vacuity *)
-(* wf_cfg and jac_ok hold for a lagged configuration with hideJacobian and applyBias on *)
+(* wf_cfg holds for a lagged configuration with hideJacobian; the history switches applyBias off at its second step *)
 Lemma example_wf_lagged :
   let c := @mkCfg R 1 [0%R] [1%R] [2%Z] [false] 2 1 true false [0%R] false false [false] true [false] true (fun _ => (1/2)%R) in
-  let h := [@mkIn R [(1/2)%R] [1%R] [0%R] [3%R] false true; @mkIn R [(1/2)%R] [0%R] [0%R] [3%R] false true] in
-  wf_cfg c /\ steady c true h /\ c_hidej c = true /\ c_same_step c = false /\ length (ABFModel.trace_of Rops c h) = 2%nat.
+  let h := [@mkIn R [(1/2)%R] [1%R] [0%R] [3%R] false true; @mkIn R [(1/2)%R] [0%R] [0%R] [3%R] false false] in
+  wf_cfg c /\ c_hidej c = true /\ c_same_step c = false /\ length (ABFModel.trace_of Rops c h) = 2%nat.
 Proof.
-  cbn zeta. split; [|split; [|split; [|split]]]; try reflexivity.
-  - unfold wf_cfg. cbn [c_szd]. intros H. discriminate H.
-  - intros _ _. repeat constructor.
+  cbn zeta. split; [|split; [|split]]; try reflexivity.
+  unfold wf_cfg. cbn [c_szd]. intros H. discriminate H.
 Qed.
-
-(* steady is vacuous without hideJacobian and in the same-step convention: applyBias may then be switched
-   at any step *)
-Lemma steady_nohide c a h : c_hidej c = false -> steady c a h.
-Proof. intros H Hh. congruence. Qed.
-Lemma steady_same c a h : c_same_step c = true -> steady c a h.
-Proof. intros H _ Hs. congruence. Qed.
-(* and it holds for every history in which applyBias keeps its configured value *)
-Lemma steady_const c a h : Forall (fun i => i_apply i = a) h -> steady c a h.
-Proof. intros H _ _. exact H. Qed.
-
-(* ---------------------------------------------------------------- applyBias kept at its configured value *)
-Definition apply_const (a : bool) (h : list (@abf_in R)) : Prop := Forall (fun i => i_apply i = a) h.
-
-Theorem abf_state_is_sample_sum_const c h b a :
-  wf_cfg c -> apply_const a h ->
-  s_cnt (fst (abf_run Rops c h)) b = cnt_of b (attributed Rops c (ABFModel.trace_of Rops c h)) /\
-  forall k, (k < c_nd c)%nat ->
-    vget Rops (s_sum (fst (abf_run Rops c h)) b) k = - fsum_of k b (attributed Rops c (ABFModel.trace_of Rops c h)).
-Proof. intros Hwf Hc. exact (abf_state_is_sample_sum c h b a Hwf (steady_const c a h Hc)). Qed.
-
-Theorem abf_sum_vector_const c h b a :
-  wf_cfg c -> apply_const a h ->
-  s_sum (fst (abf_run Rops c h)) b
-  = vbuild (c_nd c) (fun k => - fsum_of k b (attributed Rops c (ABFModel.trace_of Rops c h))).
-Proof. intros Hwf Hc. exact (abf_sum_vector c h b a Hwf (steady_const c a h Hc)). Qed.
-
-Theorem stored_gradient_is_minus_mean_const c h b k a :
-  wf_cfg c -> apply_const a h -> (k < c_nd c)%nat ->
-  let s := fst (abf_run Rops c h) in
-  let S := attributed Rops c (ABFModel.trace_of Rops c h) in
-  s_cnt s b = cnt_of b S /\
-  ((0 < cnt_of b S)%Z -> grad_out Rops (s_cnt s) (s_sum s) b k = - mean_force S b k) /\
-  (cnt_of b S = 0%Z -> grad_out Rops (s_cnt s) (s_sum s) b k = 0).
-Proof. intros Hwf Hc Hk. exact (stored_gradient_is_minus_mean c h b k a Hwf (steady_const c a h Hc) Hk). Qed.
-
-Theorem applied_force_is_smoothed_negative_mean_const c h i k a :
-  wf_cfg c -> apply_const a (h ++ [i]) -> (k < c_nd c)%nat -> (0 <= c_min c < c_full c)%Z ->
-  (c_cap c = true -> 0 <= vget Rops (c_maxf c) k) ->
-  vget Rops (o_fabf (snd (abf_step Rops c (fst (abf_run Rops c h)) i))) k
-  = spec_force_samples c a (attributed Rops c (ABFModel.trace_of Rops c (h ++ [i]))) (bins Rops c (i_x i)) k.
-Proof.
-  intros Hwf Hc Hk Hmf Hcap.
-  rewrite (applied_force_is_smoothed_negative_mean c h i k a Hwf (steady_const c a _ Hc) Hk Hmf Hcap).
-  assert (Hi : i_apply i = a).
-  { unfold apply_const in Hc. rewrite Forall_forall in Hc. apply Hc. apply in_or_app. right. left. reflexivity. }
-  rewrite Hi. reflexivity.
-Qed.
-
-Theorem abf_state_with_input_data_const c l h b a :
-  wf_cfg c -> apply_const a h ->
-  let s0 := abf_init_data Rops c l in
-  let r := abf_run_data Rops c l h in
-  let S := attributed Rops c (ABFModel.trace_from Rops c s0 h) in
-  s_cnt (fst r) b = (data_cnt l b + cnt_of b S)%Z /\
-  forall k, (k < c_nd c)%nat ->
-    vget Rops (s_sum (fst r) b) k = data_sum l b k - fsum_of k b S.
-Proof. intros Hwf Hc. exact (abf_state_with_input_data c l h b a Hwf (steady_const c a h Hc)). Qed.
-
-Lemma example_apply_const :
-  apply_const true [@mkIn R [(1/2)%R] [1%R] [0%R] [3%R] false true; @mkIn R [(1/2)%R] [0%R] [0%R] [3%R] false true].
-Proof. repeat constructor. Qed.
-
 
 (* ---------------------------------------------------------------- state files: restart and reload events *)
 
@@ -956,8 +870,8 @@ Qed.
 
 (* T1 after a restart: whatever happened before, the grids after a restart from the data set d followed by the
    steps h are d plus the samples attributed in h *)
-Lemma fresh_set_grids c d : fresh (abf_set_grids Rops c (abf_init Rops c) d 0).
-Proof. split; reflexivity. Qed.
+Lemma fresh_set_grids c d : fresh c (abf_set_grids Rops c (abf_init Rops c) d 0).
+Proof. left. split; reflexivity. Qed.
 
 Lemma run_events_app c evs1 evs2 :
   abf_run_events Rops c (evs1 ++ evs2) = fold_left (abf_event_apply Rops c) evs2 (abf_run_events Rops c evs1).
@@ -969,32 +883,193 @@ Proof.
   induction h as [|i h IH]; intros s; cbn [map fold_left abf_run_from fst snd abf_event_apply]; [reflexivity|]. apply IH.
 Qed.
 
-Theorem abf_state_after_restart c evs d h b a :
-  wf_cfg c -> steady c a h ->
+Theorem abf_state_after_restart c evs d h b :
+  wf_cfg c ->
   let s0 := abf_set_grids Rops c (abf_init Rops c) d 0 in
   let s := abf_run_events Rops c (evs ++ [EvRestart d] ++ map (@EvStep R) h) in
   let S := attributed Rops c (ABFModel.trace_from Rops c s0 h) in
   s_cnt s b = (fst d b + cnt_of b S)%Z /\
   forall k, (k < c_nd c)%nat -> vget Rops (s_sum s b) k = vget Rops (snd d b) k * IZR (fst d b) - fsum_of k b S.
 Proof.
-  intros Hwf Hst. cbn zeta.
+  intros Hwf. cbn zeta.
   rewrite run_events_app. rewrite fold_left_app. cbn [fold_left abf_event_apply]. rewrite run_events_steps.
-  pose proof (run_from_fresh c (abf_set_grids Rops c (abf_init Rops c) d 0) h b a Hwf Hst (fresh_set_grids c d)) as H.
+  pose proof (run_from_fresh c (abf_set_grids Rops c (abf_init Rops c) d 0) h b Hwf (fresh_set_grids c d)) as H.
   cbn zeta in H. destruct H as [Hc Hs]. split.
   - rewrite Hc. reflexivity.
   - intros k Hk. rewrite (Hs k Hk). unfold abf_set_grids. cbn [s_sum]. rewrite vget_vbuild by exact Hk. reflexivity.
 Qed.
 
-Theorem abf_state_after_restart_const c evs d h b a :
-  wf_cfg c -> apply_const a h ->
-  let s0 := abf_set_grids Rops c (abf_init Rops c) d 0 in
-  let s := abf_run_events Rops c (evs ++ [EvRestart d] ++ map (@EvStep R) h) in
-  let S := attributed Rops c (ABFModel.trace_from Rops c s0 h) in
-  s_cnt s b = (fst d b + cnt_of b S)%Z /\
-  forall k, (k < c_nd c)%nat -> vget Rops (s_sum s b) k = vget Rops (snd d b) k * IZR (fst d b) - fsum_of k b S.
-Proof. intros Hwf Hc. exact (abf_state_after_restart c evs d h b a Hwf (steady_const c a h Hc)). Qed.
-
 Lemma example_event_ok : Forall event_ok [EvStep (@mkIn R [(1/2)%R] [1%R] [0%R] [0%R] false true);
                                           EvRestart ((fun _ => 2%Z), (fun _ => [1%R]));
                                           EvReload ((fun _ => 0%Z), (fun _ => [0%R]))].
 Proof. repeat constructor; intros b; cbn [fst]; lia. Qed.
+
+
+(* ---------------------------------------------------------------- the bias defined while the simulation is running *)
+
+Lemma index_ok_minus1 (c : @abf_cfg R) : (0 < c_nd c)%nat -> index_ok c (repeat (-1)%Z (c_nd c)) = false.
+Proof.
+  intros H. unfold index_ok. destruct (c_nd c) as [|n]; [lia|].
+  cbn [seq forallb repeat]. unfold zget at 1. cbn [nth]. reflexivity.
+Qed.
+
+Lemma fresh_init_late (c : @abf_cfg R) rel : (0 < c_nd c)%nat -> fresh c (abf_init_late Rops c rel).
+Proof. intros H. right. unfold abf_init_late. cbn [s_fbin]. apply index_ok_minus1. exact H. Qed.
+
+(* T1 for a bias defined after the engine has made steps (the last one with step_relative = rel): the grids are
+   the samples attributed in its own history; nothing of what happened before it existed enters a bin *)
+Theorem abf_state_late_definition c rel h b :
+  wf_cfg c -> (0 < c_nd c)%nat ->
+  let s0 := abf_init_late Rops c rel in
+  let r := abf_run_from Rops c s0 h in
+  let S := attributed Rops c (ABFModel.trace_from Rops c s0 h) in
+  s_cnt (fst r) b = cnt_of b S /\
+  forall k, (k < c_nd c)%nat -> vget Rops (s_sum (fst r) b) k = - fsum_of k b S.
+Proof.
+  intros Hwf Hnd. cbn zeta.
+  pose proof (run_from_fresh c (abf_init_late Rops c rel) h b Hwf (fresh_init_late c rel Hnd)) as H.
+  cbn zeta in H. destruct H as [H1 H2]. split.
+  - rewrite H1. unfold abf_init_late. cbn [s_cnt]. lia.
+  - intros k Hk. rewrite (H2 k Hk). unfold abf_init_late. cbn [s_sum]. rewrite vget_vzero. lra.
+Qed.
+
+(* ---------------------------------------------------------------- T1 across a reload into the running instance *)
+
+Lemma link_set_grids c s p d rel : link c s p -> link c (abf_set_grids Rops c s d rel) p.
+Proof. intros H. exact H. Qed.
+
+(* The state file is loaded into the instance that is running, after the step i0 (made from any state s): the grids
+   become the data set d, and from then on they receive the samples delivered after the load: in the lagged
+   convention the first of them is the force of step i0 itself (exerted before the load, delivered after it, attributed
+   to the bin of i0); with same-step forces the samples of the steps h. *)
+Theorem abf_state_after_reload c s i0 d h b :
+  wf_cfg c ->
+  let so := abf_step Rops c s i0 in
+  let s' := abf_set_grids Rops c (fst so) d 0 in
+  let p := (i0, snd so) in
+  let r := abf_run_from Rops c s' h in
+  let tr := ABFModel.trace_from Rops c s' h in
+  let A := attributed_of c (if c_same_step c then deliveries_same Rops c tr else deliveries_lag Rops c (Some p) tr) in
+  s_cnt (fst r) b = (fst d b + cnt_of b A)%Z /\
+  forall k, (k < c_nd c)%nat -> vget Rops (s_sum (fst r) b) k = vget Rops (snd d b) k * IZR (fst d b) - fsum_of k b A.
+Proof.
+  intros Hwf. cbn zeta. unfold ABFModel.trace_from.
+  destruct (c_same_step c) eqn:Hsame.
+  - pose proof (run_same c Hsame h (abf_set_grids Rops c (fst (abf_step Rops c s i0)) d 0) b) as H. cbn zeta in H.
+    destruct H as [Hc Hs]. split.
+    + rewrite Hc. reflexivity.
+    + intros k Hk. rewrite (Hs k Hk). unfold abf_set_grids. cbn [s_sum]. rewrite vget_vbuild by exact Hk. reflexivity.
+  - assert (Hszd : c_szd c = false).
+    { destruct (c_szd c) eqn:E; [|reflexivity]. unfold wf_cfg in Hwf. specialize (Hwf E). congruence. }
+    pose proof (link_set_grids c _ _ d 0%Z (link_step c s i0)) as Hl.
+    pose proof (run_lag c Hsame Hszd h _ _ Hl b) as H. cbn zeta in H. destruct H as [Hc Hs]. split.
+    + rewrite Hc. reflexivity.
+    + intros k Hk. rewrite (Hs k Hk). unfold abf_set_grids. cbn [s_sum]. rewrite vget_vbuild by exact Hk. reflexivity.
+Qed.
+
+(* ---------------------------------------------------------------- timeStepFactor (same-step total forces) *)
+
+Definition attributed_mts_of (c : @abf_cfg R) (k : Z) (ds : list (@delivery R)) : list (idx * @vec R) :=
+  map (fun d => (fst (fst d), snd (fst d)))
+      (filter (fun d => awake k (snd d) && eligible c (snd d) && index_ok c (fst (fst d))) ds).
+
+Lemma attributed_mts_of_app c k d1 d2 :
+  attributed_mts_of c k (d1 ++ d2) = attributed_mts_of c k d1 ++ attributed_mts_of c k d2.
+Proof. unfold attributed_mts_of. rewrite filter_app, map_app. reflexivity. Qed.
+
+Lemma sample_force_same c i o o' : c_same_step c = true ->
+  sample_force Rops c (i, o) = sample_force Rops c (i, o').
+Proof.
+  intros Hsame. unfold sample_force. apply map_ext. intros k. unfold measured, own, jac. rewrite Hsame. reflexivity.
+Qed.
+
+Lemma mstep_same c k s i b :
+  c_same_step c = true ->
+  let so := abf_mstep Rops c k s i in
+  let A := attributed_mts_of c k [(bins Rops c (i_x i), sample_force Rops c (i, snd so), (o_rel (snd so), o_cont (snd so)))] in
+  s_cnt (fst so) b = (s_cnt s b + cnt_of b A)%Z /\
+  forall d, (d < c_nd c)%nat -> vget Rops (s_sum (fst so) b) d = vget Rops (s_sum s b) d - fsum_of d b A.
+Proof.
+  intros Hsame. cbn zeta. unfold abf_mstep. destruct (awake k (st_clk s i)) eqn:Haw.
+  - cbn [fst snd]. pose proof (step_same c s i b Hsame) as H. cbn zeta in H.
+    rewrite (sample_force_same c i (mts_out Rops c k i (snd (abf_step Rops c s i))) (snd (abf_step Rops c s i)) Hsame).
+    unfold attributed_mts_of. unfold attributed_of in H. cbn [filter map fst snd] in *.
+    assert (Hclk : (o_rel (mts_out Rops c k i (snd (abf_step Rops c s i))), o_cont (mts_out Rops c k i (snd (abf_step Rops c s i))))
+                   = st_clk s i).
+    { unfold mts_out, abf_step. cbn [snd o_rel o_cont]. symmetry. apply surjective_pairing. }
+    assert (Hclk2 : (o_rel (snd (abf_step Rops c s i)), o_cont (snd (abf_step Rops c s i))) = st_clk s i).
+    { unfold abf_step. cbn [snd o_rel o_cont]. symmetry. apply surjective_pairing. }
+    rewrite Hclk, Haw. rewrite Hclk2 in H. cbn [andb]. exact H.
+  - unfold abf_sleep. cbn [fst snd s_cnt s_sum o_rel o_cont]. unfold attributed_mts_of. cbn [filter map fst snd].
+    rewrite <- surjective_pairing. rewrite Haw. cbn [andb map]. unfold cnt_of, fsum_of. cbn.
+    split; [lia | intros d Hd; lra].
+Qed.
+
+Lemma run_mts c k : c_same_step c = true ->
+  forall h s b,
+    let r := abf_mrun_from Rops c k s h in
+    let A := attributed_mts_of c k (deliveries_same Rops c (combine h (snd r))) in
+    s_cnt (fst r) b = (s_cnt s b + cnt_of b A)%Z /\
+    forall d, (d < c_nd c)%nat -> vget Rops (s_sum (fst r) b) d = vget Rops (s_sum s b) d - fsum_of d b A.
+Proof.
+  intros Hsame h. induction h as [|i h IH]; intros s b; cbn zeta.
+  - cbn [abf_mrun_from fst snd combine deliveries_same map]. unfold attributed_mts_of, cnt_of, fsum_of. cbn.
+    split; [lia | intros d Hd; lra].
+  - cbn [abf_mrun_from fst snd combine deliveries_same map].
+    specialize (IH (fst (abf_mstep Rops c k s i)) b). cbn zeta in IH. destruct IH as [IHc IHs].
+    pose proof (mstep_same c k s i b Hsame) as Hstep. cbn zeta in Hstep. destruct Hstep as [Sc Ss].
+    change (?x :: map ?f ?l) with ([x] ++ map f l).
+    rewrite attributed_mts_of_app, cnt_of_app. split.
+    + unfold deliveries_same in IHc. rewrite IHc, Sc. lia.
+    + intros d Hd. rewrite fsum_of_app. unfold deliveries_same in IHs. rewrite (IHs d Hd), (Ss d Hd). lra.
+Qed.
+
+(* T1 with timeStepFactor k (same-step total forces): count and sum of every bin are those of the samples of the
+   steps at which the bias is awake *)
+Theorem mts_state_is_sample_sum c k h b :
+  c_same_step c = true ->
+  let r := abf_mrun_from Rops c k (abf_init Rops c) h in
+  let S := attributed_mts Rops c k (combine h (snd r)) in
+  s_cnt (fst r) b = cnt_of b S /\
+  forall d, (d < c_nd c)%nat -> vget Rops (s_sum (fst r) b) d = - fsum_of d b S.
+Proof.
+  intros Hsame. cbn zeta. pose proof (run_mts c k Hsame h (abf_init Rops c) b) as H. cbn zeta in H.
+  destruct H as [Hc Hs]. unfold attributed_mts. fold (attributed_mts_of c k (deliveries_same Rops c (combine h (snd (abf_mrun_from Rops c k (abf_init Rops c) h))))).
+  split.
+  - rewrite Hc. unfold abf_init. cbn [s_cnt]. lia.
+  - intros d Hd. rewrite (Hs d Hd). unfold abf_init. cbn [s_sum]. rewrite vget_vzero. lra.
+Qed.
+
+(* T2 with timeStepFactor: at an awake step the ABF force is spec_force of the grids and the variable receives
+   k times it (times the scaling factor); at a step at which the bias is asleep nothing is applied *)
+Theorem mts_force c k s i d :
+  (forall b, 0 <= s_cnt s b)%Z -> (d < c_nd c)%nat -> (0 <= c_min c < c_full c)%Z ->
+  (c_cap c = true -> 0 <= vget Rops (c_maxf c) d) ->
+  let so := abf_mstep Rops c k s i in
+  (awake k (st_clk s i) = true ->
+     vget Rops (o_fabf (snd so)) d
+       = spec_force c (i_apply i) (s_cnt (fst so)) (s_sum (fst so)) (bins Rops c (i_x i)) d /\
+     vget Rops (o_fapp (snd so)) d = IZR k * vget Rops (o_fabf (snd so)) d * sfac Rops c (bins Rops c (i_x i))) /\
+  (awake k (st_clk s i) = false ->
+     vget Rops (o_f (snd so)) d = 0 /\ vget Rops (o_fapp (snd so)) d = 0 /\
+     s_cnt (fst so) = s_cnt s /\ s_sum (fst so) = s_sum s).
+Proof.
+  intros Hcnt Hd Hmf Hcap. cbn zeta. unfold abf_mstep. split; intros Haw; rewrite Haw.
+  - cbn [fst snd]. split.
+    + unfold mts_out. cbn [o_fabf]. unfold abf_step. cbn [fst snd o_fabf s_cnt s_sum].
+      unfold st_fabf, st_bin. apply applied_force_spec; try assumption. apply cnt_nonneg_step. exact Hcnt.
+    + unfold mts_out. cbn [o_fapp o_fabf]. rewrite vget_vbuild by exact Hd. cbn [nmul nofZ Rops]. reflexivity.
+  - unfold abf_sleep. cbn [fst snd o_f o_fapp s_cnt s_sum]. rewrite vget_vzero. repeat split; reflexivity.
+Qed.
+
+Lemma cnt_nonneg_mstep c k s i : (forall b, 0 <= s_cnt s b)%Z -> forall b, (0 <= s_cnt (fst (abf_mstep Rops c k s i)) b)%Z.
+Proof.
+  intros H b. unfold abf_mstep. destruct (awake k (st_clk s i)); cbn [fst].
+  - unfold abf_step. cbn [fst s_cnt]. apply cnt_nonneg_step. exact H.
+  - unfold abf_sleep. cbn [fst s_cnt]. apply H.
+Qed.
+
+(* the bias is awake at step 0 and at every k-th step; with k <= 1 at every step *)
+Lemma awake_examples : awake 2 (0%Z, false) = true /\ awake 2 (1%Z, false) = false /\ awake 3 (6%Z, true) = true /\
+                       awake 1 (5%Z, false) = true.
+Proof. repeat split; reflexivity. Qed.
